@@ -654,6 +654,9 @@ func SpecMatch(pattern string, hasWild bool, s string) bool {
 //@   assert[C13] rs.processResetCollection#1: rs.state == stateCollection && arg0 != nil
 //@   safety[C15]
 //@   loop 1 assume rs.e != nil && rs.e.cache != nil && (rs.state > stateRequested ==> predLoadedOK(rs)) && (forall sb Subscriber :: has(rs.subs, sb) ==> sb != nil)
+//@   loop 1 assume rangeidx1 > 0 ==> ev != nil
+//@   loop 1 let E = result.Events
+//@   loop 1 invariant rangeidx1 == 0 ==> (forall k int :: 0 <= k && k < len(E) ==> E[k] != nil)
 
 // --- reset diff for models (C12) -------------------------------------------------------------
 
